@@ -77,6 +77,16 @@ REGISTRY["C15"] = {
     "assumptions": ["the state machine abstracts an instance to the set of names in __fields_set__; constructor / __setattr__ wrapping is observed, not proved"],
 }
 
+REGISTRY["C10"] = {
+    "engine": "engine_validate",
+    "theorems": [(A + "Validators", "Api.Validators.C10_ran"), (A + "Validators", "Api.Validators.C10_ok_iff"),
+                 (A + "Validators", "Api.Validators.C10_gate"), (A + "Validators", "Api.Validators.C10_result")],
+    "model_is_spec": True,
+    "partial": "validate() (who runs, in which order, when an error is raised) and the gate of ObjectMethod are proved; dependency discovery "
+               "(ast walk, inheritance through __mro__), yielded paths and alias relocation are observed by the engine only",
+    "assumptions": ["validator bodies are parameters (pass / fail with a given error); dependency and discard sets are data"],
+}
+
 LEVEL_NOTE = ("Trusted: Lean 4.33 kernel; axioms propext / Classical.choice / Quot.sound only (audited by #print axioms on every run, no sorry / "
               "native_decide / own axioms); the hand-written model, tied to /repo by the differential correspondence of this check (same cases to the "
               "real code and to the compiled Lean driver); tools/extract.py for the regenerated tables; CPython / typing / dataclasses. "
@@ -97,11 +107,15 @@ TEXT["C16"] = ("Kernel-checked theorems on the model of sort_by_order (an instan
 TEXT["C15"] = ("Kernel-checked characterisation of every operation of the with_fields_set state machine (membership after deserialization / construction, "
                "assignment, set_fields, unset_fields) over all classes, states and arguments; the machine is compared with the real fields_set after "
                "every operation of generated sequences, and exclude_unset serialization is checked against it.")
+TEXT["C10"] = ("Kernel-checked theorems on the model of validate(): the validators executed, in order, are exactly those selected by the one-pass "
+               "specification, for every list / outcome assignment / discard structure (structural recursion: termination by construction), an error is "
+               "raised iff an executed validator failed, and the gate of the object method; tied by real Validator objects with logging bodies and "
+               "by generated dataclasses with @validator methods run through deserialize.")
 for k, v in TEXT.items():
     REGISTRY[k]["level_text"] = v
     REGISTRY[k]["level_note"] = LEVEL_NOTE
 
 # properties registered in MANIFEST.json (a property is claimed once its check is green on the unchanged tree)
-CLAIMED = ["C01", "C02", "C03", "C08", "C13", "C14", "C15", "C16"]
+CLAIMED = ["C01", "C02", "C03", "C08", "C13", "C10", "C14", "C15", "C16"]
 NOT_CLAIMED = {p: "check under construction in this session (model and theorems exist, engine being registered); not yet claimed"
-               for p in ["C04", "C05", "C06", "C07", "C09", "C10", "C11", "C12", "C17", "C18", "C19", "C20"]}
+               for p in ["C04", "C05", "C06", "C07", "C09", "C11", "C12", "C17", "C18", "C19", "C20"]}
